@@ -203,7 +203,9 @@ const KINDS: &[(&str, &str)] = &[
     ("lcc", "1sp-north"), ("lcc", "1sp-south"), ("lcc", "2sp-north"), ("lcc", "2sp-south"), ("lcc", "2sp-straddle"), ("lcc", "lat_0"),
     ("laea", "oblique-north"), ("laea", "oblique-south"), ("laea", "equatorial"), ("laea", "north-polar"), ("laea", "south-polar"),
     ("omerc", "A-north"), ("omerc", "A-south"), ("omerc", "B-north"), ("omerc", "B-south"), ("omerc", "laborde"),
-    ("omerc", "A-alpha90"), ("omerc", "B-alpha90"),
+    ("omerc", "A-alpha90"), ("omerc", "B-alpha90"), ("omerc", "laborde-alpha90"),
+    ("omerc", "A-alpha-90"), ("omerc", "B-alpha-90"), ("omerc", "laborde-alpha-90"),
+    ("omerc", "A-boundary"), ("omerc", "B-boundary"), ("omerc", "laborde-boundary"),
     ("somerc", "north"), ("somerc", "south"), ("somerc", "equator"),
     ("tmerc", "wrap"), ("utm", "wrap"), ("btmerc", "wrap"), ("butm", "wrap"), ("lcc", "wrap"), ("laea", "wrap"), ("omerc", "wrap"), ("somerc", "wrap"),
     ("gridshift", "datum"), ("gridshift", "geoid"), ("gridshift", "datum-list"),
@@ -915,9 +917,18 @@ fn build_projection(raw: &Raw, op: &str, aspect: &str, mut c: Cur, mut ell: Stri
             let south = aspect.ends_with("south") || (!aspect.ends_with("north") && c.flag(0.5));
             let latc = rd(c.lin(2.0, 80.0), 4) * if south { -1.0 } else { 1.0 };
             let lonc = if wrap { rd(c.lin(172.0, 180.0), 4) * if c.flag(0.5) { -1.0 } else { 1.0 } } else { rd(c.lin(-180.0, 180.0), 4) };
-            let alpha = if aspect.ends_with("alpha90") { 90.0 } else { rd(c.lin(1.0, 179.0), 5) * if c.flag(0.3) { -1.0 } else { 1.0 } };
+            let alpha = if aspect.ends_with("alpha90") {
+                90.0
+            } else if aspect.ends_with("alpha-90") {
+                -90.0
+            } else if aspect.ends_with("boundary") {
+                // exact boundary azimuths: 270 (= -90), +-180 and 0 (initial line along the meridian)
+                [270.0, 180.0, -180.0, 0.0][c.pick(4)]
+            } else {
+                rd(c.lin(1.0, 179.0), 5) * if c.flag(0.3) { -1.0 } else { 1.0 }
+            };
             def.push_str(&format!(" latc={latc} lonc={lonc} alpha={alpha}"));
-            if aspect != "laborde" {
+            if !aspect.starts_with("laborde") {
                 let g = if c.flag(0.5) { alpha } else { rd(alpha + c.lin(-2.0, 2.0), 5) };
                 def.push_str(&format!(" gamma_c={g}"));
             }
@@ -1814,8 +1825,9 @@ fn main() {
                "somerc": "3e-10 e^2 a + 2e-7", "geodesic": "3e-12 a + 1e-6", "cart_high": "1e-3 max(1,(f/f_GRS80)^2)", "deformation": "6 dt^2 |v|max Lip(v) + 1e-6"}),
     );
 
+    // (quick counts: the engine multiplies them by 3)
     // 1. every catalogue entry x every ellipsoid (47 built-in + one random), deterministic draws
-    let reps = run.scale(10, 96);
+    let reps = run.scale(4, 96);
     let npts = if run.is_thorough() { 256 } else { 64 };
     let nk = KINDS.len();
     let seed = run.seed;
@@ -1832,7 +1844,7 @@ fn main() {
     );
 
     // 2. random operator instances
-    let n = run.scale(120_000, 2_800_000);
+    let n = run.scale(40_000, 2_800_000);
     let maxpts = if run.is_thorough() { 256 } else { 128 };
     run.section(
         "operators-random",
@@ -1844,7 +1856,7 @@ fn main() {
 
     // 2b. the grid files shipped with the library, inside their coverage
     let nf = FILE_GRIDS.len();
-    let reps = run.scale(60, 600);
+    let reps = run.scale(20, 600);
     run.sweep(
         "shipped-grids",
         "gridshift / deformation with each grid file shipped in /repo/geodesy (Gravsoft datum, geoid, deformation; NTv2 with and without sub-grid), served by GridCtx, points in the central 90 % of the coverage",
@@ -1854,7 +1866,7 @@ fn main() {
     );
 
     // 3. typed pipelines and macros
-    let n = run.scale(45_000, 1_200_000);
+    let n = run.scale(15_000, 1_200_000);
     run.section(
         "pipelines",
         "type-correct pipelines (external lat/lon degrees | lon/lat degrees | radians -> 0..2 datum shifts cart|helmert|cart inv -> optional projection utm/tmerc/merc/webmerc/lcc/laea/omerc/btmerc -> output adaptors), plain or wrapped in sub-chain / whole / nested / parameterised macros; points within 2 degrees of a random centre; tolerance = sum of the step tolerances; macro invocations also get the inv twin check",
